@@ -12,13 +12,20 @@ INSTANCE Kv
 
 T == ndJsonDeserialize(IOEnv.TRACE)
 
-VARIABLES l,        \* next trace line
+CONSTANT AllowD1    \* TRUE only in the C19 configuration: tolerate (and report) the known defect D1 after a repair
+VARIABLES olds,     \* key -> set of values the key held before its current one (0 = a deletion)
+          repaired, \* a repair happened in this execution
+          l,        \* next trace line
           cur,      \* Kv state: key -> value id
           snaps,    \* snapshot id -> frozen view
           iters     \* iterator id -> [view, pos]
-vars == <<l, cur, snaps, iters>>
+vars == <<l, cur, snaps, iters, olds, repaired>>
 
-Init == l = 1 /\ cur = EmptyMap /\ snaps = <<>> /\ iters = <<>>
+Init == l = 1 /\ cur = EmptyMap /\ snaps = <<>> /\ iters = <<>> /\ olds = [k \in Keys |-> {}] /\ repaired = FALSE
+RECURSIVE OldsAfter(_, _, _)
+OldsAfter(o, m, ops) == IF ops = <<>> THEN o
+                        ELSE LET k == Head(ops)[1] IN OldsAfter([o EXCEPT ![k] = IF m[k] # Absent \/ o[k] # {} THEN @ \cup {m[k]} ELSE @],
+                                                                [m EXCEPT ![k] = Head(ops)[2]], Tail(ops))
 Ev == T[l]
 Is(e) == l <= Len(T) /\ Ev.e = e /\ l' = l + 1
 Has(f, id) == id \in DOMAIN f
@@ -27,31 +34,34 @@ ViewOf(s) == IF s = 0 THEN cur ELSE snaps[s]
 
 \* ---- writes: an acknowledged write (rc = 0) takes effect, a failed one must not ----
 TPut == /\ Is("put") /\ Ev.rc = 0
-        /\ cur' = [cur EXCEPT ![Ev.k] = Ev.v] /\ UNCHANGED <<snaps, iters>>
+        /\ cur' = [cur EXCEPT ![Ev.k] = Ev.v] /\ olds' = OldsAfter(olds, cur, <<<<Ev.k, Ev.v>>>>) /\ UNCHANGED <<snaps, iters, repaired>>
 TDel == /\ Is("del") /\ Ev.rc = 0
-        /\ cur' = [cur EXCEPT ![Ev.k] = Absent] /\ UNCHANGED <<snaps, iters>>
+        /\ cur' = [cur EXCEPT ![Ev.k] = Absent] /\ olds' = OldsAfter(olds, cur, <<<<Ev.k, Absent>>>>) /\ UNCHANGED <<snaps, iters, repaired>>
 TBatch == /\ Is("batch") /\ Ev.rc = 0
-          /\ cur' = ApplyOps(cur, Ev.ops) /\ UNCHANGED <<snaps, iters>>
+          /\ cur' = ApplyOps(cur, Ev.ops) /\ olds' = OldsAfter(olds, cur, Ev.ops) /\ UNCHANGED <<snaps, iters, repaired>>
 
 \* ---- reads: C01 / C06 ----
 TGet == /\ Is("get") /\ (Ev.snap = 0 \/ Has(snaps, Ev.snap))
-        /\ Ev.r = ViewOf(Ev.snap)[Ev.k]
-        /\ UNCHANGED <<cur, snaps, iters>>
+        /\ \/ Ev.r = ViewOf(Ev.snap)[Ev.k]
+           \* named deviation (known finding D1): after a repair a point lookup may return an OLDER value of the key
+           \* (never one that was not written); iterators are still exact
+           \/ AllowD1 /\ repaired /\ Ev.snap = 0 /\ Ev.r \in olds[Ev.k] /\ PrintT(<<"pr", "d1", l>>)
+        /\ UNCHANGED <<cur, snaps, iters, olds, repaired>>
 THas == /\ Is("has") /\ (Ev.snap = 0 \/ Has(snaps, Ev.snap))
         /\ Ev.r = (IF ViewOf(Ev.snap)[Ev.k] = Absent THEN 0 ELSE 1)
-        /\ UNCHANGED <<cur, snaps, iters>>
+        /\ UNCHANGED <<cur, snaps, iters, olds, repaired>>
 
 TSnap == /\ Is("snap") /\ ~Has(snaps, Ev.id)
-         /\ snaps' = snaps @@ (Ev.id :> cur) /\ UNCHANGED <<cur, iters>>
+         /\ snaps' = snaps @@ (Ev.id :> cur) /\ UNCHANGED <<cur, iters, olds, repaired>>
 TRel == /\ Is("rel") /\ Has(snaps, Ev.id)
-        /\ snaps' = Without(snaps, Ev.id) /\ UNCHANGED <<cur, iters>>
+        /\ snaps' = Without(snaps, Ev.id) /\ UNCHANGED <<cur, iters, olds, repaired>>
 
 \* ---- iterators: C07 ----
 TIterNew == /\ Is("iter_new") /\ ~Has(iters, Ev.id) /\ (Ev.snap = 0 \/ Has(snaps, Ev.snap))
             /\ iters' = iters @@ (Ev.id :> [view |-> ViewOf(Ev.snap), pos |-> Inv])
-            /\ UNCHANGED <<cur, snaps>>
+            /\ UNCHANGED <<cur, snaps, olds, repaired>>
 TIterFree == /\ Is("iter_free") /\ Has(iters, Ev.id)
-             /\ iters' = Without(iters, Ev.id) /\ UNCHANGED <<cur, snaps>>
+             /\ iters' = Without(iters, Ev.id) /\ UNCHANGED <<cur, snaps, olds, repaired>>
 TIt == /\ Is("it") /\ Has(iters, Ev.id)
        /\ LET it == iters[Ev.id]
               np == NewPos(it.view, it.pos, Ev.op, Ev.t) IN
@@ -60,7 +70,7 @@ TIt == /\ Is("it") /\ Has(iters, Ev.id)
           /\ (np # Inv => Ev.k = np /\ Ev.v = it.view[np])
           /\ Ev.status = 0
           /\ iters' = [iters EXCEPT ![Ev.id].pos = np]
-       /\ UNCHANGED <<cur, snaps>>
+       /\ UNCHANGED <<cur, snaps, olds, repaired>>
 \* full scans: the driver reports the yielded (key, value) list and the final status
 ScanOf(v) == LET ks == Live(v) IN
              [i \in 1..Cardinality(ks) |->
@@ -69,17 +79,20 @@ Rev(s) == [i \in 1..Len(s) |-> s[Len(s) + 1 - i]]
 TScan == /\ Is("scan") /\ (Ev.snap = 0 \/ Has(snaps, Ev.snap))
          /\ Ev.status = 0
          /\ Ev.items = (IF Ev.dir = "fwd" THEN ScanOf(ViewOf(Ev.snap)) ELSE Rev(ScanOf(ViewOf(Ev.snap))))
-         /\ UNCHANGED <<cur, snaps, iters>>
+         /\ UNCHANGED <<cur, snaps, iters, olds, repaired>>
 
 \* ---- engine-internal operations are stuttering steps of the abstract store ----
 TStutter == /\ (Is("flush") \/ Is("compact") \/ Is("compact_all") \/ Is("note"))
-            /\ UNCHANGED <<cur, snaps, iters>>
+            /\ UNCHANGED <<cur, snaps, iters, olds, repaired>>
 TReopen == /\ Is("reopen") /\ Ev.rc = 0 /\ snaps = <<>> /\ iters = <<>>
-           /\ UNCHANGED <<cur, snaps, iters>>
-TReset == Is("Reset") /\ cur' = EmptyMap /\ snaps' = <<>> /\ iters' = <<>>
+           /\ UNCHANGED <<cur, snaps, iters, olds, repaired>>
+TReset == Is("Reset") /\ cur' = EmptyMap /\ snaps' = <<>> /\ iters' = <<>> /\ olds' = [k \in Keys |-> {}] /\ repaired' = FALSE
+\* C19: repair followed by open is a stuttering step of the abstract store - nothing surviving is lost
+TRepair == /\ Is("repair") /\ Ev.rc = 0 /\ snaps = <<>> /\ iters = <<>> /\ repaired' = TRUE
+           /\ UNCHANGED <<cur, snaps, iters, olds>>
 
 Next == \/ TPut \/ TDel \/ TBatch \/ TGet \/ THas \/ TSnap \/ TRel
-        \/ TIterNew \/ TIterFree \/ TIt \/ TScan \/ TStutter \/ TReopen \/ TReset
+        \/ TIterNew \/ TIterFree \/ TIt \/ TScan \/ TStutter \/ TReopen \/ TReset \/ TRepair
 Spec == Init /\ [][Next]_vars
 NotAccepted == l <= Len(T)
 =============================================================================
